@@ -16,6 +16,7 @@ import numpy as np
 import scipy.sparse as sp
 
 from . import binding as B
+from . import runcap
 from .seams import Seams, SimInterrupt
 
 
@@ -26,6 +27,7 @@ def _bytes(a):
 
 def classify_exception(exc):
     """Where did it come from and what kind is it."""
+    runcap.check()      # (a wall-cap hit that surfaced as another exception is not the library's)
     tb = traceback.extract_tb(exc.__traceback__)
     files = [f.filename for f in tb]
     in_skglm = any("/skglm/" in f for f in files)
